@@ -18,7 +18,10 @@
       pieces, the mirror of Finalize's `location` bookkeeping puts every table start at the start
       of its region, the regions tile [96, bytes_used), bytes_used is the end of the last write,
       and the WriteAt calls cover [0, bytes_used) exactly once; the 8 KiB chunking of the metadata
-      streams holds the whole stream in blocks of 1..8192 bytes.
+      streams holds the whole stream in blocks of 1..8192 bytes;
+    * inode and directory-table codecs round-trip (`inode_roundtrip`, `dir_listing_roundtrip`), and
+      on uncompressed metadata streams that show a tree the pure reader returns exactly that tree
+      (`reader_walks_tree`).
   The compressors themselves are outside Lean (parameter `Codec`); the end-to-end clause is
   evaluated on the real code by the engine (see the registration note).
 -/
@@ -27,6 +30,8 @@ import DiskfsModel.Proofs.SqfsFrag
 import DiskfsModel.Proofs.SqfsMeta
 import DiskfsModel.Proofs.SqfsCodec
 import DiskfsModel.Proofs.SqfsRegions
+import DiskfsModel.Proofs.SqfsInode
+import DiskfsModel.Proofs.SqfsWalk
 import DiskfsModel.Generated.Sqfs
 namespace Diskfs.Sqfs.C07
 
@@ -132,7 +137,7 @@ theorem sizes_describe_bytes (p : Pieces) :
     (finalize p).dirStart = startOf .dirTbl (regions p) ∧
     (finalize p).fragStart = startOf .fragIdx (regions p) ∧
     (finalize p).idStart = startOf .idIdx (regions p) ∧
-    (finalize p).exportStart = (if p.exportTbl.isSome then startOf .exportIdx (regions p) else 0) ∧
+    (finalize p).exportStart = (if p.exportTbl.isSome then startOf .exportIdx (regions p) else absent64) ∧
     (finalize p).writes = flatWrites (regions p) ++ [(0, sbSize)] :=
   ⟨regions_tile p, finalize_bytesUsed p, (finalize_starts p).1, (finalize_starts p).2.1, (finalize_starts p).2.2.1,
     (finalize_starts p).2.2.2.1, (finalize_starts p).2.2.2.2, finalize_writes p⟩
@@ -193,11 +198,100 @@ private def ex1 : Pieces := { opt := 8, data := [4096, 100], frags := [50], inod
                               exportTbl := some [40], idTbl := [4] }
 example : (finalize ex1).inodeStart = 4350 ∧ (finalize ex1).dirStart = 4552 ∧ (finalize ex1).fragStart = 4632 ∧
     (finalize ex1).exportStart = 4682 ∧ (finalize ex1).idStart = 4696 ∧ (finalize ex1).bytesUsed = 4704 := by decide
-example : (finalize { ex1 with exportTbl := none }).exportStart = 0 ∧ (finalize { ex1 with exportTbl := none }).idStart = 4646 := by decide
+example : (finalize { ex1 with exportTbl := none }).exportStart = absent64 ∧ (finalize { ex1 with exportTbl := none }).idStart = 4646 := by decide
 example : (finalize ex1).writes = [(96, 8), (104, 4096), (4200, 100), (4300, 50), (4350, 202), (4552, 62), (4614, 18), (4632, 8),
     (4640, 42), (4682, 8), (4690, 6), (4696, 8), (0, 96)] := by decide
 example : chunkGT [5000, 5000, 100] 0 = [8192, 1908] := by rfl
 example : chunkGE 16 513 0 = [8192, 16] ∧ chunkGE 16 512 0 = [8192] ∧ chunkGE 4 0 0 = [] :=
   ⟨by rw [meta_chunks_ge 16 513 ⟨512, by rfl⟩]; rfl, by rw [meta_chunks_ge 16 512 ⟨512, by rfl⟩]; rfl, by rfl⟩
+
+/-! ## inode and directory-table codecs, tree reader -/
+
+/-- inode codec round trip (header + the directory / regular file / symlink bodies Finalize writes:
+    basic and extended directory without index entries, basic and extended file with their block
+    lists, basic symlink): decoding at the front of any stream returns the inode and leaves exactly
+    the bytes that follow it; the encoded length is the size `updateInodeLocations` adds up -/
+theorem inode_roundtrip (bs : Nat) (i : Inode) (rest : Bytes) (h : i.WF bs) :
+    decodeInode bs (encodeInode i ++ rest) = some (i, rest) ∧ (encodeInode i).length = i.size :=
+  ⟨decode_encodeInode bs i rest h, encodeInode_length i⟩
+
+/-- directory table codec round trip for a whole listing of any length: `directory.toBytes` starts
+    a new 12-byte header whenever the inode block changes or the header already counts 256
+    entries; `parseDirectory` returns the same entries in order, each with the inode block of its
+    header and its inode number restored from the 16-bit difference -/
+theorem dir_listing_roundtrip (base : Nat) (hb : base < 2 ^ 32) (es : List DEnt) (h : ∀ e ∈ es, e.WF base) :
+    decodeDir (es.length + 1) (encodeListing base es) = some es := decode_encodeListing base hb es h
+
+/-- **the reader walks the tree** (uncompressed metadata): if every entry's inode stands in the
+    inode stream at the place its (block, offset) reference names and every directory's listing
+    stands in the directory stream at the place its inode names, then reading below a directory's
+    inode returns exactly the depth-first list of (path, inode) of the tree — names, kinds, sizes,
+    block lists, fragment references, symlink targets, modes, owners' indices and times included,
+    since the whole decoded inode is returned.  Composed from `dir_listing_roundtrip`,
+    `inode_roundtrip` and induction over the nesting depth; how references map to stream positions
+    is a parameter (`meta_ref_resolves` is the statement about that arithmetic). -/
+theorem reader_walks_tree (env : WalkEnv) (t : STree) (hs : Shows env t) (fuel : Nat) (pre : List Bytes) (d : Nat)
+    (hd : d < t.n) (hdir : t.isDir d = true) (hfit : t.Fits fuel d) :
+    sqWalk env fuel pre (t.ino d) = some (t.walk fuel pre d) := sqWalk_walk env t hs fuel pre d hd hdir hfit
+
+/-- pinned facts regenerated from directory.go: a header counts at most 256 entries, is 12 bytes
+    long, and the decoder refuses a stored name length above 256 -/
+theorem facts_agree_codec :
+    Generated.Sqfs.maxDirEntries = maxDirEntries ∧ Generated.Sqfs.dirHeaderSize = 12 ∧ Generated.Sqfs.dirNameMaxSize = 256 := by decide
+
+/-! non-vacuity -/
+private def exHdr : IHdr := { mode := 0o644, uid := 0, gid := 1, mtime := 1700000000, index := 2 }
+private def exFile : Inode := ⟨exHdr, .basicFile 96 0 10 8200 [⟨4096, false⟩, ⟨1234, true⟩]⟩
+example : exFile.WF 4096 := by
+  refine ⟨by decide, by decide, by decide, by decide, by decide, by decide, by decide, by decide, by decide, ?_, by decide⟩
+  intro b hb
+  simp at hb
+  rcases hb with rfl | rfl <;> simp [Blk.WF]
+example : decodeInode 4096 (encodeInode exFile ++ [9, 9]) = some (exFile, [9, 9]) := by decide
+example : (encodeInode ⟨exHdr, .basicSymlink 1 [46, 46, 47, 97]⟩).length = 28 := by decide
+private def exEnts : List DEnt :=
+  [⟨0, 2, 2, [97], 0⟩, ⟨40, 3, 1, [98, 98], 0⟩, ⟨8, 4, 3, [99], 8194⟩]
+example : encodeListing 0 exEnts =
+    [1, 0, 0, 0, 0, 0, 0, 0, 0, 0, 0, 0,  0, 0, 2, 0, 2, 0, 0, 0, 97,  40, 0, 3, 0, 1, 0, 1, 0, 98, 98,
+     0, 0, 0, 0, 2, 32, 0, 0, 0, 0, 0, 0,  8, 0, 4, 0, 3, 0, 0, 0, 99] := by decide
+example : decodeDir 4 (encodeListing 0 exEnts) = some exEnts := by decide
+
+-- a root directory holding one empty file, both streams a few dozen bytes long
+private def wRoot : Inode := ⟨{ mode := 0o755, uid := 0, gid := 0, mtime := 5, index := 1 }, .extDir 2 24 0 2 0 (2 ^ 32 - 1)⟩
+private def wFile : Inode := ⟨{ mode := 0o644, uid := 0, gid := 0, mtime := 6, index := 2 }, .basicFile 96 noFrag 0 0 []⟩
+private def wT : STree :=
+  { n := 2, ino := fun c => if c = 0 then wRoot else wFile, name := fun c => if c = 0 then [47] else [97],
+    kids := fun d => if d = 0 then [1] else [], refBlk := fun _ => 0, refOff := fun c => if c = 0 then 0 else 40 }
+private def wEnv : WalkEnv :=
+  { bs := 4096, I := encodeInode wRoot ++ encodeInode wFile, D := encodeListing 0 [wT.dent 1],
+    ipos := fun _ off => off, dpos := fun _ off => off }
+private theorem wShows : Shows wEnv wT := by
+  have two : ∀ c, c < 2 → c = 0 ∨ c = 1 := by omega
+  refine ⟨?_, ?_, ?_, ?_, ?_⟩
+  · intro d hd c hc
+    rcases two d hd with rfl | rfl <;> simp [wT] at hc ⊢
+    omega
+  · intro c hc
+    rcases two c hc with rfl | rfl
+    · exact ⟨encodeInode wFile, by decide⟩
+    · exact ⟨[], by decide⟩
+  · intro c hc
+    rcases two c hc with rfl | rfl
+    · simp [wT, wRoot, Inode.WF, IBody.WF]
+    · simp [wT, wEnv, wFile, Inode.WF, IBody.WF, noFrag, blockCount]
+  · intro c hc
+    rcases two c hc with rfl | rfl <;> simp [wT, STree.dent, DEnt.WF, wRoot, wFile, basicTyp, IBody.typ]
+  · intro d hd sb off sz hl
+    rcases two d hd with rfl | rfl
+    · simp [wT, wRoot, listingRef] at hl
+      obtain ⟨rfl, rfl, rfl⟩ := hl
+      exact ⟨by decide, by decide⟩
+    · simp [wT, wFile, listingRef] at hl
+example : sqWalk wEnv 1 [] wRoot = some [([[97]], wFile)] := by
+  have := reader_walks_tree wEnv wT wShows 1 [] 0 (by decide) (by decide) (by
+    intro c hc hd
+    simp [wT] at hc; subst hc
+    simp [STree.isDir, wT, wFile, listingRef] at hd)
+  simpa [wT, STree.walk, STree.isDir, wFile, listingRef] using this
 
 end Diskfs.Sqfs.C07
